@@ -225,6 +225,20 @@ Definition shown (fam : family) (color_mode : bool) (vmin vmax a4 v : Z) : Z :=
   | _, true => clip 0 (4 * (vmax - vmin)) ((v - vmin) * a4)
   end.
 
+(* vmin == vmax (e.g. a CONSTANT layer with the default scale): what reaches Matplotlib
+   colormap mode: as above (imshow gets the entries; cmap(norm) of a degenerate Normalize is cmap(0))
+   color mode, imshow:   (data - vmin) / 0  =  nan where data = vmin (code NAN), +-inf elsewhere, clipped to 1 / 0;
+                         observed as alpha * 4
+   color mode, hexagons: Normalize(vmin = vmax) maps everything to 0: alpha 0 *)
+Definition NAN : Z := -7.
+Definition shown_degenerate (fam : family) (color_mode : bool) (lo v : Z) : Z :=
+  match fam, color_mode with
+  | Hex, false => lo
+  | Hex, true => 0
+  | _, false => v
+  | _, true => if v =? lo then NAN else if v >? lo then 4 else 0
+  end.
+
 Fixpoint lookup_coord (p : coord) (l : list (coord * Z)) : option Z :=
   match l with
   | [] => None
@@ -324,11 +338,14 @@ Inductive op :=
 | Collect                          (* collect_agent_data *)
 | DrawMpl                          (* draw_space, markers read back from ax.collections *)
 | DrawAltair                       (* _draw_grid, chart.data.values *)
-| DrawLayer (color_mode : bool) (vmin vmax : option Z) (a4 : Z)
+| DrawLayer (color_mode : bool) (vmin vmax : option Z) (a4 : Z) (colorbar : bool)
 | Check (s : list param) (ps : list Z)
 | Split (ps : list (Z * pvalue))
 | Creator (s : list param) (ps : list (Z * pvalue))    (* ModelCreator's parameter check *)
-| Bind (s : list param) (ps : list Z).                 (* does the keyword call M(k=.., ...) itself succeed *)
+| Bind (s : list param) (ps : list Z)                  (* does the keyword call M(k=.., ...) itself succeed *)
+| DrawMplC (default_portrayal : bool)      (* make_space_component(backend="matplotlib")(model): the Figure handed to Solara *)
+| DrawAltairC (default_portrayal : bool)   (* make_space_component(backend="altair")(model): the Chart handed to Solara *)
+| DrawAltairEnc.                           (* _draw_grid: the encodings of the chart (taken from the first row) *)
 
 Definition find_agent (id : Z) (l : list agent) : option agent := find (fun a => a_id a =? id) l.
 Definition occupied (p : coord) (l : list agent) : bool := existsb (at_cell p) l.
@@ -339,8 +356,21 @@ Definition mk_agent (sp : space) (id kind : Z) (p : coord) : agent :=
        then {| a_id := id; a_kind := kind; a_pos := Some p; a_cell := None |}  (* ContinuousSpaceAgent.pos *)
        else {| a_id := id; a_kind := kind; a_pos := None; a_cell := Some p |}.
 
+(* the agent list is kept in the order the space iterates its agents WITHIN a cell: cell lists
+   (legacy MultiGrid content lists, Cell.agents) append on arrival, so a move takes the agent to
+   the end; the legacy continuous space iterates the dict _agent_to_index, whose order a move does
+   not change.  (Only the Altair encodings, taken from the FIRST row, depend on this order.) *)
+Definition moves_to_end (sp : space) : bool := match sp_family sp with Cont => false | _ => true end.
 Definition set_loc (sp : space) (id : Z) (p : coord) (l : list agent) : list agent :=
-  map (fun a => if a_id a =? id then mk_agent sp id (a_kind a) p else a) l.
+  if moves_to_end sp then
+    match find (fun a => a_id a =? id) l with
+    | Some a =>
+        (* CellAgent.cell = <the cell it is in> returns at once; the legacy move_agent removes and places again *)
+        if negb (sp_legacy sp) && at_cell p a then l
+        else filter (fun b => negb (a_id b =? id)) l ++ [mk_agent sp id (a_kind a) p]
+    | None => l
+    end
+  else map (fun a => if a_id a =? id then mk_agent sp id (a_kind a) p else a) l.
 Definition set_kind (id k : Z) (l : list agent) : list agent :=
   map (fun a => if a_id a =? id
                 then {| a_id := a_id a; a_kind := k; a_pos := a_pos a; a_cell := a_cell a |} else a) l.
@@ -395,16 +425,41 @@ Definition layer_min (d : layer) : Z :=
 Definition layer_max (d : layer) : Z :=
   match ravel d with [] => 0 | x :: t => zmax_list t x end.
 
-Definition obs_layer (sp : space) (d : layer) (color_mode : bool) (vmin vmax : option Z) (a4 : Z) : list Z :=
+Definition obs_layer (sp : space) (d : layer) (color_mode : bool) (vmin vmax : option Z) (a4 : Z)
+           (colorbar : bool) : list Z :=
   let lo := get vmin (layer_min d) in
   let hi := get vmax (layer_max d) in
-  if hi <=? lo then OBS_NOOP      (* degenerate colour scale: not generated, not drawn *)
+  if hi <? lo then OBS_NOOP      (* vmin > vmax: not generated, not drawn *)
   else
     0 :: sp_h sp :: sp_w sp ::
     map (fun o => match o with
-                  | Some v => shown (sp_family sp) color_mode lo hi a4 v
+                  | Some v => if hi =? lo then shown_degenerate (sp_family sp) color_mode lo v
+                              else shown (sp_family sp) color_mode lo hi a4 v
                   | None => -9
-                  end) (layer_view sp d).
+                  end) (layer_view sp d)
+    (* the colour bar never touches the image; its scale is Normalize(vmin, vmax) *)
+    ++ (if colorbar then (if hi =? lo then [1]                            (* Matplotlib widens a singular scale itself *)
+                          else [1; 2 * lo; 2 * hi])                       (* half units *)
+        else [0]).
+
+(* _draw_grid: tooltip / color / size encodings from all_agent_data[0] (no agents: from {}), and the
+   default mark size 30000 / min(width, height)^2 when there is no size encoding *)
+Definition obs_altair_enc (sp : space) (pt : portrayal) (agents : list agent) : list Z :=
+  match altair_data sp pt agents with
+  | None => obs_err E_NOT_IMPLEMENTED
+  | Some rows =>
+      let d := match rows with r :: _ => ar_d r | [] => pd_empty end in
+      let m := Z.min (sp_w sp) (sp_h sp) in
+      let ms := if oflag (pd_size d) =? 1 then (0, 1) else reduce (30000, m * m) in
+      [0; oflag (pd_color d); oflag (pd_size d); oflag (pd_marker d); oflag (pd_zorder d); fst ms; snd ms]
+  end.
+
+(* ModelCreator: model_parameters = {**fixed_params, **{k: v.get("value") for k, v in user_params.items()}} *)
+Definition pv_value (v : pvalue) : Z :=
+  match v with VFixed x | VSlider x | VDictType x | VDictNoType x => x end.
+Definition creator_kwargs (ps : list (Z * pvalue)) : list (Z * Z) :=
+  let sp' := split_model_params ps in
+  map (fun kv => (fst kv, pv_value (snd kv))) (snd sp') ++ map (fun kv => (fst kv, pv_value (snd kv))) (fst sp').
 
 Definition param_row (kv : Z * pvalue) : list Z :=
   match snd kv with
@@ -464,10 +519,10 @@ Definition step (sp : space) (pt : portrayal) (st : state) (o : op) : state * li
   | Collect => (st, obs_collect sp pt ags)
   | DrawMpl => (st, obs_mpl sp pt ags)
   | DrawAltair => (st, obs_altair sp pt ags)
-  | DrawLayer cm vmin vmax a4 =>
+  | DrawLayer cm vmin vmax a4 cbar =>
       match st_layer st with
       | None => (st, OBS_NOOP)
-      | Some d => (st, obs_layer sp d cm vmin vmax a4)
+      | Some d => (st, obs_layer sp d cm vmin vmax a4 cbar)
       end
   | Check s ps => (st, let r := check s ps in if r =? 0 then [0] else obs_err r)
   | Split ps => (st, obs_split ps)
@@ -475,8 +530,12 @@ Definition step (sp : space) (pt : portrayal) (st : state) (o : op) : state * li
       (* user_params, fixed_params = split_model_params(user_params);
          _check_model_params(model.__class__.__init__, {**fixed_params, **user_params})  (as repaired) *)
       let sp' := split_model_params ps in
-      (st, let r := check s (map fst (snd sp' ++ fst sp')) in if r =? 0 then [0] else obs_err r)
+      (st, let r := check s (map fst (snd sp' ++ fst sp')) in
+           if r =? 0 then obs_rows (map (fun kv => [fst kv; snd kv]) (creator_kwargs ps)) else obs_err r)
   | Bind s ps => (st, [if bindable s ps then 1 else 0])
+  | DrawMplC dflt => (st, obs_mpl sp (if dflt then [] else pt) ags)
+  | DrawAltairC dflt => (st, obs_altair sp (if dflt then [] else pt) ags)
+  | DrawAltairEnc => (st, obs_altair_enc sp pt ags)
   end.
 
 Fixpoint run_ops (sp : space) (pt : portrayal) (st : state) (ops : list op) : list (list Z) :=
